@@ -55,6 +55,7 @@ type VC struct {
 	assumed  map[string]bool // assumptions recorded for evidence
 	nosafe   bool
 	nosafeKinds map[string]bool
+	captured   []capturedCell // cells of the variables a closure under contract captures
 	declsCache string // type declarations, frozen before obligations are solved in parallel
 	entryAlloc Term
 	nondet   bool // the VC abstracts (loop havoc, contract application, effect-free results): models need not be real executions
@@ -409,6 +410,21 @@ func (vc *VC) setMapHeap(st *State, kind string, k, v Sort, h Term) {
 
 // havocAll starts a new heap epoch: every heap and map heap becomes unconstrained.
 func (vc *VC) havocAll(st *State) {
+	type kept struct {
+		c capturedCell
+		v Term
+	}
+	var keep []kept
+	for _, c := range vc.captured {
+		if v, err := vc.loadAt(st, c.addr, c.ty); err == nil {
+			keep = append(keep, kept{c, v})
+		}
+	}
+	defer func() {
+		for _, k := range keep {
+			vc.storeAt(st, k.c.addr, k.c.ty, k.v)
+		}
+	}()
 	st.base = vc.freshName("ep")
 	st.mbase = st.base
 	st.lazyParents, st.lazySels = nil, nil
@@ -694,4 +710,10 @@ func (vc *VC) rangeAssumption(v Term, t types.Type, alloc Term) Term {
 		}
 	}
 	return True
+}
+
+// capturedCell: a variable of the enclosing function that the closure under contract captures.
+type capturedCell struct {
+	addr Term
+	ty   types.Type
 }
